@@ -268,7 +268,8 @@ def run_case(case: Dict[str, Any]) -> Dict[str, Any]:
                     for c in ao.conns:
                         c.send_some()
                 if slow:
-                    client.pump(4096)       # a client that drains a few KiB per loop iteration through a small receive buffer
+                    if client.pump(4096):       # a client that drains a few KiB per loop iteration through a small receive buffer
+                        rig.note_progress()
                 if client.ended:
                     return True
                 owed = sum(len(v) for v in sent_by_origin.values())
@@ -276,7 +277,23 @@ def run_case(case: Dict[str, Any]) -> Dict[str, Any]:
                     return False            # large relays: do not re-parse a megabyte per iteration
                 ms, err, _ = h11util.parse_responses(bytes(client.rx[before_len:]), [q['method'].encode()], eof=False)
                 return bool(err) or any(m['complete'] for m in ms)
-            rig.until(done, [] if slow else [client], idle_timeout=case.get('grace', 0.4))
+            # origins that are threads (TLS) do their work outside the stepped loop: while one of them is busy decrypting a
+            # megabyte or is not scheduled on a loaded machine, proxy and harness sockets are quiet - that is not "nothing more
+            # will happen"
+            grace = case.get('grace', 0.4)
+            if tls_origins:
+                grace = max(grace, 8.0)
+            elif slow:
+                grace = max(grace, 3.0)
+            elif len(raw) > 60000:
+                grace = max(grace, 2.0)
+            # (a slow reader is pumped by done() itself, so until() cannot see its bytes moving: no stall limit then)
+            finished = rig.until(done, [] if slow else [client], idle_timeout=grace,
+                                 max_stall=600.0 if slow else (20.0 if tls_origins else 8.0), max_wall=240.0 if slow else (90.0 if tls_origins else 40.0))
+            if not finished and rig.until_reason in ('wall', 'stall') and not client.ended:
+                # bytes were still flowing when the wall-clock limit hit (loaded machine): no verdict from this case
+                inconclusive = 'relay-still-in-progress-at-the-wall-limit'
+                break
             rig.settle([client], quiet=4)
             for ao in origins.values():
                 ao.tick()
